@@ -113,3 +113,16 @@ Proof.
   revert n. induction f as [|f IH]; intros n; simpl; [lia|]. apply combine_ge_1.
   intros v Hv. apply in_map_iff in Hv. destruct Hv as [c [<- _]]. apply IH.
 Qed.
+
+(* min_twig_size: exactly the leaves whose twig (leaf .. branching node, inclusive) has fewer than k nodes are ignored; a leaf of an
+   unbranched fragment never is *)
+Lemma short_twig_leaves_spec t k l :
+  In l (short_twig_leaves t k) <->
+  exists r, In r (leaf_rows t) /\ rid r = l /\ exists tw, twig_walk t (anc t l) = Some tw /\ (S (length tw) < k)%nat.
+Proof.
+  unfold short_twig_leaves. rewrite in_map_iff. split.
+  - intros [r [Hr Hin]]. apply filter_In in Hin. destruct Hin as [Hin Hc]. exists r. split; [exact Hin|]. split; [exact Hr|].
+    subst l. destruct (twig_walk t (anc t (rid r))) as [tw|]; [|discriminate]. exists tw. split; [reflexivity|]. apply Nat.ltb_lt. exact Hc.
+  - intros [r [Hin [Hr [tw [Htw Hlt]]]]]. exists r. split; [exact Hr|]. apply filter_In. split; [exact Hin|].
+    subst l. rewrite Htw. apply Nat.ltb_lt. exact Hlt.
+Qed.
